@@ -388,4 +388,81 @@ func runC08(r *Run) {
 		r.st.Evaluations++
 		f.close()
 	}
+	// a connection that dies between the dialer's return and the registration of the client's close callback
+	// (dial.before-onclose gate): the loss must still reach the recovery
+	for _, trans := range []string{"tcp", "ws"} {
+		hub.reset()
+		f, err := openF(trans)
+		if err != nil {
+			continue
+		}
+		g := hub.arm("dial.before-onclose", nil)
+		f.lk.drop()
+		l2 := f.acceptNext(3 * time.Second)
+		cs := trans + ": drop; the re-dialled connection is dropped by the peer before the client has registered its close callback on it (keepalive 1 h)"
+		if l2 != nil && g.waitParked(2*time.Second) {
+			n0 := f.tc.log.count("close conn, err")
+			l2.drop()
+			f.tc.log.waitCount("close conn, err", n0+1, 2*time.Second) // the new connection's reader has closed it
+			g.open()
+			hub.reset()
+			l3 := f.followNewest(1500 * time.Millisecond)
+			if l3 == nil {
+				r.violate(Violation{What: "a loss of the connection was never recovered: the connection died before the client had registered its close callback on it", Case: cs,
+					Extra: strings.Join(f.tc.log.snapshot(), "\n")})
+			} else {
+				ch := f.tc.doAsync(34, nil, fReq)
+				if q := l3.nextRequest(time.Second); q != nil {
+					l3.sendFrame(respFrame(1, 34, q.Rid, 0, []byte("back")))
+				}
+				if res, ok := awaitDo(ch, 2*time.Second); !ok || res.pkt == nil {
+					r.violate(Violation{What: "service not re-established after a connection died before the close callback was registered: " + resultStr(res), Case: cs})
+				}
+				if trans == "tcp" {
+					r.emit("lf.run 0 CL RB DD.1 CL AD.1 FN X.0.r X.0.w X.0.d RB DD.1 AD.1 FN X.1.r X.1.w X.1.d", f.observe(false).String(), true)
+				}
+			}
+		} else {
+			g.open()
+			hub.reset()
+		}
+		r.count("c08.dies-before-onclose." + trans)
+		r.st.Evaluations++
+		f.close()
+	}
+	// the same window in the first Dial
+	{
+		hub.reset()
+		g := hub.arm("dial.before-onclose", nil)
+		s := &session{tc: newTestClient(), v: 1, trans: "tcp"}
+		s.tcp = newTCPPeer()
+		f := &fsession{s, settle()}
+		errc := make(chan error, 1)
+		go func() {
+			errc <- s.tc.dial(s.tcp.url(), 1, client.DialTimeout(fDial), client.Keepalive(time.Hour), client.KeepaliveTimeout(2*time.Hour))
+		}()
+		l1 := f.acceptNext(3 * time.Second)
+		cs := "tcp: the first connection is dropped by the peer before Dial has registered the close callback (keepalive 1 h)"
+		if l1 != nil && g.waitParked(2*time.Second) {
+			l1.drop()
+			s.tc.log.waitCount("close conn, err", 1, 2*time.Second)
+			g.open()
+			hub.reset()
+			<-errc
+			l2 := f.followNewest(1500 * time.Millisecond)
+			if l2 == nil {
+				r.violate(Violation{What: "a loss of the connection was never recovered: the first connection died before Dial had registered the close callback", Case: cs,
+					Extra: strings.Join(s.tc.log.snapshot(), "\n")})
+			} else {
+				s.lk = l2
+				r.emit("lf.run 0 CL RB DD.1 AD.1 FN X.0.r X.0.w X.0.d", f.observe(false).String(), true)
+			}
+		} else {
+			g.open()
+			hub.reset()
+		}
+		r.count("c08.dies-before-onclose.first-dial")
+		r.st.Evaluations++
+		s.close()
+	}
 }
